@@ -3,10 +3,18 @@
 import json, os, glob, re
 ROOT = os.path.dirname(os.path.dirname(os.path.abspath(__file__)))
 rows = []
+last = {}
+rp = os.path.join(ROOT, 'seeded', 'results.jsonl')
+if os.path.exists(rp):
+    for l in open(rp):
+        r = json.loads(l); last[r['seed']] = r      # the latest re-run wins (tools/reseed.py)
 for m in sorted(glob.glob(os.path.join(ROOT, 'seeded', '*', 'meta.json'))):
     d = json.load(open(m))
+    name = os.path.basename(os.path.dirname(m))
     needs = re.sub(r'\s+', ' ', d.get('needs_short') or d.get('needs', ''))[:260]
-    rows.append(f"| `{os.path.basename(os.path.dirname(m))}` | {needs} | {d.get('caught_by', '?')} | {d.get('budget', '')} |")
+    r = last.get(name)
+    rerun = '' if r is None else (f"caught by {r['check']} quick in {r['wall']} s" + (' (2x budget)' if r['time_scale'] > 1 else '') if r['caught'] else f"NOT caught by {r['check']} quick") + f" @ {r['verif']}"
+    rows.append(f"| `{name}` | {needs} | {d.get('caught_by', '?')} | {d.get('budget', '')} | {rerun} |")
 mut = {}
 mp = os.path.join(ROOT, 'mutants', 'results.jsonl')
 if os.path.exists(mp):
